@@ -14,6 +14,7 @@
 import TypedpyModel.Lemmas.DefineWorld
 import TypedpyModel.Lemmas.DefineBridge
 import TypedpyModel.Lemmas.DeriveTotal
+import TypedpyModel.Lemmas.DefineSig
 namespace Typedpy.C14
 open Typedpy
 
@@ -419,6 +420,59 @@ theorem sub_accepts_base_accepts (O : Oracles) {w : World} (hw : WorldOk w) {c a
     simp only [hk, List.contains_eq_mem, decide_eq_true_eq] at this
     exact ancestor_field_same hw hc ha hmem hk this
 
+/-- C14 (constructors, every history): the same for every world reachable by class statements with
+    no hypothesis about the class records at all — that the signature of every class names only
+    declared non-Constant fields and that `_constants` are the Constant members of `_field_by_name`
+    (`Bridge.wf`) is an invariant of every history (`reachable_sigOk`, since the repair of
+    `names-mismatch:constant-shadowed-in-diamond`). -/
+theorem sub_accepts_base_accepts_reachable (O : Oracles) {w : World} (hr : Reachable O w) {c a : ClassDef}
+    {cn : String} (hc : w.find cn = some c) (ha : w.find a.name = some a) (hmem : a.name ∈ c.mro)
+    (hinh : inheritsUnchanged w c a = true) (hreq : ∀ n ∈ a.sig.req, n ∈ c.sig.req)
+    (hign : c.ignoreNone = true → a.ignoreNone = true) (hA : a.isAbstract = false)
+    (ordC ordA : List String) (kw : List (String × PyVal)) {x : PyVal}
+    (h : instantiateOrd O c ordC kw = .ok x) :
+    ∃ y, instantiateOrd O a ordA (restrictKw a kw) = .ok y :=
+  sub_accepts_base_accepts O (reachable_ok hr) hc ha hmem hinh hreq (reachable_bridge_wf hr ha) hign hA
+    ordC ordA kw h
+
+/-- C14 (constructors, one class statement): `class S(…mixins…, B, …mixins…)` that redeclares none of
+    `B`'s fields and does not switch `_ignore_none` on: whatever `S(**kw)` accepts, `B` accepts on
+    the arguments that are its fields — every hypothesis is about the class statement itself. -/
+theorem direct_sub_accepts_base_accepts (O : Oracles) {w : World} (hr : Reachable O w) {src : ClassSrc}
+    {cd bd : ClassDef} (h : defineClass O w src = .ok cd) (hfresh : w.find src.name = none)
+    {b : String} (hb : b ∈ src.bases) (hbd : w.find b = some bd) (hstruct : bd ∈ structBases w src)
+    (honly : ∀ b' ∈ src.bases, b' ≠ b → ∀ bd', w.find b' = some bd' → bd'.mro = [b'] ∧ bd'.own = [])
+    (hnew : ∀ n ∈ Bridge.defOrder bd, n ∉ (ownMembers src.entries).map (·.1))
+    (hign : cd.ignoreNone = true → bd.ignoreNone = true) (hA : bd.isAbstract = false)
+    (ordC ordB : List String) (kw : List (String × PyVal)) {x : PyVal}
+    (hx : instantiateOrd O cd ordC kw = .ok x) :
+    ∃ y, instantiateOrd O bd ordB (restrictKw bd kw) = .ok y := by
+  have hw := reachable_ok hr
+  rcases defined_class_ok hw h hfresh with ⟨hw', hself, _⟩
+  have hstep : stepClass O w (.define src) = .ok cd := h
+  have hfresh' : w.find cd.name = none := by rw [defineClass_name h]; exact hfresh
+  have hr' : Reachable O (w.add cd) := Reachable.step hr hstep hfresh'
+  have hbd' : (w.add cd).find b = some bd := find_add_of_some hbd
+  have hkS := classOk_keysNodup (hw' _ _ hself)
+  have hkB := classOk_keysNodup (hw' _ _ hbd')
+  have hwfB := reachable_bridge_wf hr hbd
+  have hsigS := reachable_sigOk hr' _ _ hself
+  have hsame : ∀ n ∈ Bridge.defOrder bd, lookup n cd.allFields = lookup n bd.allFields :=
+    fun n hn => inherited_field_same hw h hfresh hb hbd honly (hnew n hn)
+  refine ctor_accepts_restricted O hkS hkB hsame ?_ hwfB hign hA ordC ordB kw hx
+  intro n hn
+  have hreq := sub_required_superset h hstruct hn
+  apply hreq.2
+  -- `n` is a declared field of the base, the same object in the subclass: not one of its Constants
+  have hwf' := hwfB
+  simp only [Bridge.wf, Bool.and_eq_true, List.all_eq_true, List.contains_eq_mem, decide_eq_true_eq] at hwf'
+  have hnd : n ∈ Bridge.defOrder bd := hwf'.1 n hn
+  rcases (c14_mem_defOrder hkB n).mp hnd with ⟨d, dflt, hl⟩
+  have hlS : lookup n cd.allFields = some (.field d dflt) := by rw [hsame n hnd, hl]
+  intro hmem
+  have : (lookup n cd.constants).isSome = true := by rw [lookup_isSome_iff]; exact hmem
+  rw [hsigS.consts, c14_lookup_constantsOf hkS, hlS] at this
+  cases this
 /-! ### no class is ever a strict subclass of a strict subclass of FinalStructure / ImmutableStructure -/
 
 /-- no class of the MRO tail is sealed -/
